@@ -224,6 +224,24 @@ def feedBytesCode (P : Parser E) : BSt → Bytes → BSt × List (Ev E) := feedB
 def runBytes (feed : BSt → Bytes → BSt × List (Ev E)) (chunks : List Bytes) : List (Ev E) :=
   (runWith feed binit chunks).2
 
+/-! ### several connections on one socket object -/
+
+/-- what happens to one `XmppSocket` over its life time.  `QXmppOutgoingClient` keeps ONE `XmppSocket` and reconnects
+it; incoming state (`m_dataBuffer`, `m_streamOpenElement`, `m_decoder`) must not survive from one connection to the next. -/
+inductive Op
+  | connect            -- the socket's connected() signal (plain TCP): `resetIncomingState(); emit started()`
+  | peerLost           -- the connection is closed / lost by the peer or the network: no code of ours runs on the incoming state
+  | localDisconnect    -- `XmppSocket::disconnectFromHost()`: sends the closing tag, closes; incoming state untouched
+  | feed (chunk : Bytes)   -- one socket read
+
+def stepOp (P : Parser E) (s : BSt) : Op → BSt × List (Ev E)
+  | .connect => (binit, [])
+  | .peerLost => (s, [])
+  | .localDisconnect => (s, [])
+  | .feed c => feedBytesCode P s c
+
+def runOps (P : Parser E) (s : BSt) (ops : List Op) : BSt × List (Ev E) := runWith (stepOp P) s ops
+
 /-! ### vocabulary of the theorems: a stream as a list of items -/
 
 /-- one top-level piece of a stream: the stream header, a stanza, one whitespace character, or the closing tag -/
